@@ -165,7 +165,7 @@ func checkC16(res *Result) {
 	p := loadPub()
 	E := computeEffects(p)
 	res.Packages = []string{p.Pkg.PkgPath}
-	res.Explanation = "Decides structural necessary conditions on all SSA paths of the social (outbox) default callbacks: a missing/empty object (target) returns the sentinel before any effect and every effect lies where it is present; the undeliverable side channel is set — before anything can return — to true by block and to false by every other callback, and PostOutbox returns deliverable = !undeliverable on the matched path; Delete replaces the stored object, under its lock, by toTombstone(stored, id, clock.Now()), which copies id, former type, published and updated (each independently, when present) and sets deleted; Add/Remove touch only owned targets (Owns==true for the key locked/read/written), append / remove with the documented mutator, and Remove's in-place scan examines every element; Like prepends every object id to Liked(ActorForOutbox(outbox)) inside one hold; Update writes ToType(stored ⊕ supplied) back under the object's lock; the wrapped application callback of the right name runs last. Exact member sets after Update and JSON-null deletion are value-level and not decided (see DESIGN §5, O1)."
+	res.Explanation = "Decides structural necessary conditions on all SSA paths of the social (outbox) default callbacks: a missing/empty object (target) returns the sentinel before any effect and every effect lies where it is present; the undeliverable side channel is set — before anything can return — to true by block and to false by every other callback, and PostOutbox returns deliverable = !undeliverable on the matched path; Delete replaces the stored object, under its lock, by toTombstone(stored, id, clock.Now()), which copies id, former type, published and updated (each independently, when present) and sets deleted; Add/Remove touch only owned targets (Owns==true for the key locked/read/written), append / remove with the documented mutator, and Remove's in-place scan examines every element; Like prepends every object id to Liked(ActorForOutbox(outbox)) inside one hold; Update writes ToType(stored ⊕ supplied) back under the object's lock; the wrapped application callback of the right name runs last. The keys removed by an Update are exactly keys of the idx'th raw value of the activity's object whose value is null (C16-R8). Exact member sets after Update are value-level and not decided."
 	res.Rule("C16-R1", "required object/target first: sentinel before any effect; every effect where the property is present (shared rule)")
 	res.Rule("C16-R2", "Block is never delivered: block stores true through undeliverable before any return, every other callback stores false; PostOutbox yields deliverable = !undeliverable on the matched path and still calls addToOutbox")
 	res.Rule("C16-R3", "Tombstone: toTombstone sets id (parameter), formerType (obj.GetTypeName()), deleted (parameter now) and copies published and updated independently when present; social deleteFn passes (stored object, its id, clock.Now()) and Updates the result")
@@ -432,6 +432,8 @@ func checkC16(res *Result) {
 		}
 	}
 
+	checkC16NullDeletion(res, p)
+
 	// R6
 	checkOverrideTable(res, p, "C16-R6", "SocialWrappedCallbacks", 9)
 	checkCallbackLast(res, p, E, "C16-R6", "SocialWrappedCallbacks")
@@ -440,6 +442,6 @@ func checkC16(res *Result) {
 	addErrFlowObligations(res, p, E, "C16-R7", fns, true)
 	res.Functions = len(fns)
 	res.Assumptions = append(res.Assumptions, "value flow is an over-approximation", "CFG paths over-approximate feasible paths")
-	res.Undecided = []string{"that exactly the supplied members change (value level)", "removal of members supplied as JSON null: by reading, the loop iterates the activity's raw top-level map rather than the object's — a value-level observation no structural rule here establishes (DESIGN §5 O1)", "answers of Database.Owns"}
+	res.Undecided = []string{"that exactly the supplied members change (value level)", "which nulls a nested (non-top-level) member or an object given by IRI carries (outside the statement)", "answers of Database.Owns"}
 	res.Trusted = []string{"go/types, go/ssa, go/ast (x/tools v0.29.0)", "e1_effects.go, e2_facts.go, e4_flow.go, e9_errflow.go"}
 }
